@@ -85,6 +85,13 @@ pub fn step(
             format!("panic: {}", crate::common::panic_signature(msg)),
             format!("{} panicked: {msg}", op.short()),
         ));
+        if msg.contains("step budget") {
+            out.push(Violation::new(
+                "C21",
+                "sequential call does not finish within its step budget",
+                format!("{} ran more than {} hooked atomic operations on its own", op.short(), crate::hook::CALL_BUDGET),
+            ));
+        }
         return;
     }
     match op {
